@@ -41,8 +41,9 @@ pub enum Sep {
     /// the empty lines (dropped), `indent_extra` = extra continuation indentation, `lead` = blanks after
     /// the indentation (dropped)
     Fold { breaks: usize, pad: String, empty_pad: String, indent_extra: usize, lead: String },
-    /// double-quoted: `\` + break: joins without a space; blanks before the backslash are kept
-    EscBreak { keep: String, indent_extra: usize, lead: String },
+    /// double-quoted: `\` + break: joins without a space; blanks before the backslash are kept;
+    /// `empties` empty lines after the escaped break each yield a line feed
+    EscBreak { keep: String, empties: usize, indent_extra: usize, lead: String },
 }
 
 #[derive(Clone, Debug)]
@@ -104,7 +105,12 @@ impl Program {
                             }
                         }
                     }
-                    Sep::EscBreak { keep, .. } => v.push_str(keep),
+                    Sep::EscBreak { keep, empties, .. } => {
+                        v.push_str(keep);
+                        for _ in 0..*empties {
+                            v.push('\n');
+                        }
+                    }
                 }
             }
         }
@@ -154,9 +160,12 @@ impl Program {
                         }
                         t.push_str(lead);
                     }
-                    Sep::EscBreak { keep, indent_extra, lead } => {
+                    Sep::EscBreak { keep, empties, indent_extra, lead } => {
                         t.push_str(keep);
                         t.push_str("\\\n");
+                        for _ in 0..*empties {
+                            t.push('\n');
+                        }
                         for _ in 0..cont + indent_extra {
                             t.push(' ');
                         }
@@ -375,7 +384,7 @@ fn sep_strategy() -> impl Strategy<Value = Sep> {
         3 => Just(Sep::None),
         4 => blank_strategy().prop_map(Sep::Blank),
         4 => (1usize..4, pad_strategy(), pad_strategy(), 0usize..4, pad_strategy()).prop_map(|(breaks, pad, empty_pad, indent_extra, lead)| Sep::Fold { breaks, pad, empty_pad, indent_extra, lead }),
-        2 => (pad_strategy(), 0usize..4, pad_strategy()).prop_map(|(keep, indent_extra, lead)| Sep::EscBreak { keep, indent_extra, lead }),
+        2 => (pad_strategy(), prop_oneof![3 => Just(0usize), 1 => 1usize..3], 0usize..4, pad_strategy()).prop_map(|(keep, empties, indent_extra, lead)| Sep::EscBreak { keep, empties, indent_extra, lead }),
     ]
 }
 
@@ -432,8 +441,15 @@ pub fn check_sane(info: &mut CaseInfo, p: &Program, ctx: usize) -> CheckResult {
         St::Double => ScalarStyle::DoubleQuoted,
     };
     let (doc, expected) = wrap(ctx, &text, style, &value);
-    for b in [Backend::Str, Backend::Buffered, Backend::Test(8)] {
-        let o = parse_with(b, &doc);
+    // the same document with CR LF and with lone CR line breaks (a break is a break: the value is
+    // the same); only when the program spans lines, and never for a document holding a literal CR
+    let mut docs = vec![doc.clone()];
+    if p.multi_line() && !doc.contains('\r') {
+        docs.push(doc.replace('\n', "\r\n"));
+        docs.push(doc.replace('\n', "\r"));
+    }
+    for (doc, b) in docs.iter().flat_map(|d| [Backend::Str, Backend::Buffered, Backend::Test(8)].into_iter().map(move |b| (d, b))) {
+        let o = parse_with(b, doc);
         if let Some(e) = &o.error {
             fail!("rejects-wellformed", "{} / {}: {}; document: {doc:?}", CONTEXTS[ctx], b.name(), e.display);
         }
@@ -474,7 +490,7 @@ pub fn program_json(p: &Program, ctx: usize) -> Value {
             Sep::None => json!("none"),
             Sep::Blank(b) => json!({"blank": b}),
             Sep::Fold { breaks, pad, empty_pad, indent_extra, lead } => json!({"fold": breaks, "pad": pad, "empty_pad": empty_pad, "indent_extra": indent_extra, "lead": lead}),
-            Sep::EscBreak { keep, indent_extra, lead } => json!({"escbreak": keep, "indent_extra": indent_extra, "lead": lead}),
+            Sep::EscBreak { keep, empties, indent_extra, lead } => json!({"escbreak": keep, "empties": empties, "indent_extra": indent_extra, "lead": lead}),
         })
         .collect();
     let atoms: Vec<Value> = p
@@ -529,7 +545,7 @@ fn program_from_json(v: &Value) -> (Program, usize) {
                     } else if let Some(n) = x.get("fold") {
                         Sep::Fold { breaks: n.as_u64().unwrap_or(1) as usize, pad: s(&x["pad"]), empty_pad: s(&x["empty_pad"]), indent_extra: x["indent_extra"].as_u64().unwrap_or(0) as usize, lead: s(&x["lead"]) }
                     } else if let Some(k) = x.get("escbreak") {
-                        Sep::EscBreak { keep: s(k), indent_extra: x["indent_extra"].as_u64().unwrap_or(0) as usize, lead: s(&x["lead"]) }
+                        Sep::EscBreak { keep: s(k), empties: x["empties"].as_u64().unwrap_or(0) as usize, indent_extra: x["indent_extra"].as_u64().unwrap_or(0) as usize, lead: s(&x["lead"]) }
                     } else {
                         Sep::None
                     }
@@ -554,7 +570,7 @@ impl Property for C04P {
          quotes, backslash, e-acute, CJK, astral, U+0085, U+2028, U+FEFF, U+00A0, random printable; double-quoted escapes of named, \\x, \\u, \\U form \
          for named characters, boundary code points and random chars; '' in single quotes) separated by nothing, interior blanks (kept), \
          folds (1..3 breaks, blank / tab padding before the break, on the empty lines and after the continuation indentation, 0..3 extra \
-         indentation) or escaped breaks; blanks at both ends inside quotes. A sanitiser enforces the style's productions by construction \
+         indentation) or escaped breaks (optionally followed by empty lines); blanks at both ends inside quotes; multi-line programs are also run with CR LF and lone CR line breaks. A sanitiser enforces the style's productions by construction \
          (ns-plain-first / -safe, ': ' and ' #' exclusions, flow-indicator exclusion in flow context, single-line implicit keys). The \
          program is wrapped in 10 contexts (root, after '---', block value, sequence entry, block key, nested sequence entry, flow entry, \
          flow mapping value, flow key, flow root) and parsed on StrInput, BufferedInput and TestInput<8>; the full event list with the \
@@ -569,7 +585,7 @@ impl Property for C04P {
     fn streams(&self, tier: Tier) -> Vec<StreamSpec> {
         vec![
             StreamSpec::new("programs", cases(tier).div_ceil(BLOCK), false, &format!("{} generated presentation programs", cases(tier))),
-            StreamSpec::new("exhaustive", 10, true, "every named / boundary escape x 4 forms, and every 1-2 atom program over 8 symbols x 7 separator shapes, in all 10 contexts"),
+            StreamSpec::new("exhaustive", 10, true, "every named / boundary escape x 4 forms, and every 1-2 atom program over 8 symbols x 8 separator shapes, in all 10 contexts"),
         ]
     }
     fn run_block(&self, ctx: &mut Ctx, stream: &str, block: u64) {
@@ -596,7 +612,8 @@ impl Property for C04P {
                 Sep::Fold { breaks: 1, pad: String::new(), empty_pad: String::new(), indent_extra: 0, lead: String::new() },
                 Sep::Fold { breaks: 2, pad: " ".into(), empty_pad: String::new(), indent_extra: 1, lead: String::new() },
                 Sep::Fold { breaks: 3, pad: "\t".into(), empty_pad: " ".into(), indent_extra: 0, lead: "\t".into() },
-                Sep::EscBreak { keep: " ".into(), indent_extra: 1, lead: " ".into() },
+                Sep::EscBreak { keep: " ".into(), empties: 0, indent_extra: 1, lead: " ".into() },
+                Sep::EscBreak { keep: String::new(), empties: 2, indent_extra: 0, lead: String::new() },
             ];
             for style in [St::Plain, St::Single, St::Double] {
                 for a in symbols {
